@@ -92,6 +92,18 @@ pub struct Want {
     /// also serialise through the length-hint-insensitive serde JSON writer (D17 characterisation)
     pub nohint: bool,
     pub enc: Enclosing,
+    /// format the value under the non-default format specs of `check::SPECS`: 0 = no, 1 = the `Value`
+    /// through its `Display` and `Debug` impls, 2 = also an `OwnedValue` copy through ITS impls
+    pub specs: u8,
+}
+
+/// The value formatted under every spec of `check::SPECS` (+ `DEBUG_ONLY_SPECS` for `Debug`).
+#[derive(Debug, Clone)]
+pub struct SpecObs {
+    pub display: Vec<String>,
+    pub debug: Vec<String>,
+    /// `value.to_owned()` formatted through `OwnedValue`'s own `Display` / `Debug` impls
+    pub owned: Option<(Vec<String>, Vec<String>)>,
 }
 
 #[derive(Debug, Clone, Default)]
@@ -137,6 +149,7 @@ pub struct Obs {
     pub lvl: Option<emit::Level>,
     pub trace_id: Option<emit::TraceId>,
     pub span_id: Option<emit::SpanId>,
+    pub specs: Option<SpecObs>,
 }
 
 fn chain(e: &(dyn std::error::Error + 'static)) -> Vec<String> {
@@ -187,6 +200,20 @@ pub fn observe(v: &Value, want: Want) -> Obs {
         lvl: if want.ids { v.by_ref().cast() } else { None },
         trace_id: if want.ids { v.by_ref().cast() } else { None },
         span_id: if want.ids { v.by_ref().cast() } else { None },
+        specs: if want.specs > 0 {
+            Some(SpecObs {
+                display: crate::check::display_table(v),
+                debug: crate::check::debug_table(v),
+                owned: if want.specs > 1 {
+                    let o: OwnedValue = v.to_owned();
+                    Some((crate::check::display_table(&o), crate::check::debug_table(&o)))
+                } else {
+                    None
+                },
+            })
+        } else {
+            None
+        },
     }
 }
 
@@ -352,6 +379,9 @@ pub fn drive<P: Props + ?Sized>(props: &P, key: &str, hops: &[Hop], done: usize,
         return Ok(());
     };
     let done = done + 1;
+    // a large (structured / error) subject has a format-spec clause on unbuffered reads only: not formatted
+    // two dozen times more once it is held as text
+    let want = if hop.buffers() && want.specs == 1 { Want { specs: 0, ..want } } else { want };
     match hop {
         Hop::Erase => {
             let erased: &dyn emit::props::ErasedProps = &props;
